@@ -33,9 +33,40 @@ def justified(p, user, bits, now, nbits=16, interest=None):
     return z3.And(conj)
 
 
+S = z3.StringSort()
+ParsedHost = z3.Function('url.Parse.Host', S, S)     # host of the Origin / Referer value as net/url parses it
+
+
+def request_terms(st):
+    method = z3.String(lib.rk(st, '*r.Method')) if not st.aux.get('reqid') else z3.String(f'*r#{st.aux["reqid"]}.Method')
+    host = z3.String('*r.Host') if not st.aux.get('reqid') else z3.String(f'*r#{st.aux["reqid"]}.Host')
+    org = z3.String(lib.rk(st, 'req.Header[origin]')); ref = z3.String(lib.rk(st, 'req.Header[referer]'))
+    eff = z3.If(org != z3.StringVal(''), org, ref)
+    return method, host, eff
+
+
+def same_site(st):
+    """conclusion of the CSRF clause: a non-GET request that names an origin names this host"""
+    method, host, eff = request_terms(st)
+    return z3.Or(method == z3.StringVal('GET'), eff == z3.StringVal(''), host == z3.StringVal(''), ParsedHost(eff) == host)
+
+
+def st_url_parse_host(ex, st, a, ins):
+    """url.Parse for the gate: any URL whose Host is ParsedHost(argument) (so that the oracle can name it), or an error"""
+    U = ex.ir.typeid('net/url.URL'); arg = a[0]
+    def ok(s2):
+        v = []
+        s2.counter += 1
+        for f in ex.ir.fields(U): v.append(ParsedHost(arg) if f['name'] == 'Host' else Lazy(f['type'], f'refurl!{s2.counter}.{f["name"]}'))
+        return (Ptr(s2.alloc(StructV(v))), lib.nilerr())
+    st.ev('url.Parse', arg=arg)
+    return lib.fork_results(ex, st, ins, [(None, lambda s2: (NIL, lib.mk_error(s2, z3.StringVal('parse'), 'url.Parse'))), (None, ok)])
+
+
 def run_checkauth(ir, required, cookies=(0, 1), budget_s=300, extra_hints=(), tls='any'):
     H = HandlerRun(ir, loop_bound=6, budget_s=budget_s)
     am.install(H)
+    H.stub('net/url.Parse', st_url_parse_host)
     H.add_hints(lens(r'^req\.ncookies$', list(cookies)), lens(r'^len\(\*\*r\.TLS\.VerifiedChains\)$', [0, 1]),
                 pin(r'^\*state\.oktaUsernameFilterRE$', NIL), *extra_hints)
     if tls == 'none': H.add_hints(pin(r'^\*r\.TLS$', NIL))
@@ -66,7 +97,7 @@ def gate_lemma(chk, ir, required, label, cookies=(0, 1), obligation='gate-lemma'
             bits = ex.getfield(p, v, AI, 'AuthType'); user = ex.getfield(p, v, AI, 'Username')
             now = p.aux.get('now')
             req = required if z3.is_expr(required) else z3.BitVecVal(required, 64)
-            good = z3.And(justified(p, user, bits, now, interest=interest), bits & req != 0, err_is_nil(err))
+            good = z3.And(justified(p, user, bits, now, interest=interest), bits & req != 0, err_is_nil(err), same_site(p))
             r, m = ex.model(p.pc, z3.Not(good))
             if r == 'unknown':
                 chk.absorb(ex, paths); chk.obligation(f'{obligation} {label}', label, 'inconclusive', 'solver unknown'); return False
@@ -107,6 +138,7 @@ def st_checkauth_any(ir):
             bits = z3.BitVec(f'auth{n}.bits', 64); user = z3.String(f'auth{n}.user')
             ai = am.authinfo_struct(ex, s, bits, user, TimeV(z3.BitVec(f'auth{n}.exp', lib.TW)), TimeV(z3.BitVec(f'auth{n}.iat', lib.TW)))
             s.pc.append(bits & req != 0)
+            s.pc.append(same_site(s))
             s.ev('admitted', bits=bits, user=user, required=req, iat=z3.BitVec(f'auth{n}.iat', lib.TW), exp=z3.BitVec(f'auth{n}.exp', lib.TW))
             return (Ptr(s.alloc(ai)), lib.nilerr())
         def bad(s):
